@@ -659,7 +659,7 @@ def _opposite_corner(ctx, R, m, T_i):
         from_origin = False
         if isinstance(r, Arr) and len(r.shape) == 1 and len(r.data) == d:
             vals = list(r.data)
-            from_origin = all(x is y for x, y in zip(vals, o))
+            from_origin = getattr(r, "copied_from", None) is origin and bool(getattr(r, "updated_in_place", None))
         elif isinstance(r, Sym):
             vals = [None] * d
         if vals is not None:
